@@ -130,6 +130,12 @@ Proof. exact store_call_sites_positional_refuted_pf. Qed.
 Print Assumptions store_call_sites_positional_refuted.
 
 (* ---- version detection ---- *)
+(* `emitted md obs21 V d` (Proofs/C14Detect.v) is a hand-written description of what the serialiser writes for version V.
+   It carries two restrictions, both visible in its constructors: a 2.0 object (em_obj20) must have a type that is NOT
+   registered as a 2.1 observable (umem t obs21 = false), and the member-less 2.1 bundle (em_bundle21_empty) is included
+   only for the repaired detect_spec_version (bundle_default md = true).  Nothing in Coq connects `emitted` to the
+   serialiser model of the schema family; that link is the own-output oracle of the check (real serialisations of every
+   class handed back without a version). *)
 Theorem detect_own_output : forall md obs21,
   (forall V d, emitted md obs21 V d -> detect md obs21 d = DVal (JStr V) /\ (V = v20 \/ V = v21)).
 Proof. intros md obs21. exact (proj1 (detect_emitted md obs21)). Qed.
@@ -140,6 +146,21 @@ Theorem builtin_registries_separate :
   (forall t, In t reg_observables21 -> umem (u t) obs21_builtin = true).
 Proof. exact builtin_registries_separate_pf. Qed.
 Print Assumptions builtin_registries_separate.
+
+(* outside the domain of `emitted`: a 2.0 object whose type name is also registered as a 2.1 observable (reachable with
+   the public decorators: a custom 2.0 object and a custom 2.1 observable of the same name) is read as 2.1, not 2.0 *)
+Theorem custom_20_object_named_like_21_observable_refuted : forall md obs21 m t i,
+  jlookup k_type m = Some (JStr t) -> ustr_eqb t s_bundle = false ->
+  jlookup k_spec_version m = None -> jlookup k_id m = Some i -> umem t obs21 = true ->
+  detect md obs21 (JObj m) = DVal (JStr v21) /\ DVal (JStr v21) <> DVal (JStr v20).
+Proof. exact collision_20_object_21_observable. Qed.
+Print Assumptions custom_20_object_named_like_21_observable_refuted.
+
+Example collision_witness :
+  detect pinned_mode (u "x-c14-collide" :: obs21_builtin)
+    (JObj [(k_type, JStr (u "x-c14-collide")); (k_id, JStr (u "x-c14-collide--x")); (u "name", JStr (u "a"))])
+  = DVal (JStr v21).
+Proof. exact collision_witness_pf. Qed.
 
 (* the pinned detect_spec_version does not recognise the 2.1 bundle the library emits when it has no members *)
 Theorem empty_bundle21_not_recognised_refuted : forall md obs21 m i,
@@ -199,9 +220,4 @@ Example emitted_shapes_exist :
     (JObj [(k_type, JStr (u "identity")); (k_id, JStr (u "identity--x"))])
   /\ emitted pinned_mode obs21_builtin v21
     (JObj [(k_type, JStr (u "file")); (k_id, JStr (u "file--x"))]).
-Proof.
-  split; [|split].
-  - eapply em_obj21; reflexivity.
-  - eapply em_obj20; reflexivity.
-  - eapply em_sco21; reflexivity.
-Qed.
+Proof. exact emitted_shapes_exist_pf. Qed.
